@@ -114,6 +114,16 @@ class Replayer(object):
             return None       # one-byte field: a compressed point is as long as a raw one, which DER containers refuse by length
         return self.VK.from_der(vk.to_der("compressed"))
 
+    def same_key(self, R, A):
+        """key equality; across copies of the Curve object (unpickled / deep-copied keys: Curve objects compare by identity,
+        DESIGN section 9 F14) the comparison is made on the Public_key / Private_key objects, which the property anchors"""
+        if R.curve is A.curve:
+            return bool(R == A) and not bool(R != A)
+        self.notes = getattr(self, "notes", 0) + 1
+        if isinstance(A, self.SK):
+            return bool(R.privkey == A.privkey) and bool(R.verifying_key.pubkey == A.verifying_key.pubkey)
+        return bool(R.pubkey == A.pubkey)
+
     def denote(self, obj):
         ec = self.ec
         if isinstance(obj, self.SK):
@@ -281,14 +291,14 @@ class Replayer(object):
                             % (i, vals[i - 1], self.SKFMT[k]))
                 elif op == "sk_reload":
                     R = self.sk_load(self.sk_serial(A, k), k)
-                    if R != A or not (R == A) or R.to_der() != A.to_der():
+                    if not self.same_key(R, A) or R.to_der() != A.to_der():
                         bad(si, "signing key %d re-loaded from its %s form differs from the original" % (i, self.SKFMT[k]))
                     objs.append(R), vals.append(res), kinds.append("S")
                 elif op == "k_reload":
                     R = self.vk_reload(A, k)
                     if R is None:
                         R = self.fresh_vk(vals[i - 1])
-                    elif R != A or R.to_string() != A.to_string():
+                    elif not self.same_key(R, A) or R.to_string() != A.to_string():
                         bad(si, "verifying key %d re-loaded from its own serialisation (form %d) differs from the original" % (i, k))
                     objs.append(R), vals.append(res), kinds.append("K")
                 elif op == "verify_by":
